@@ -133,10 +133,15 @@ def gen_case(rng, tier, with_classes=False):
     # crashes in convert_torch_to_tf.split_and_convert_column_dataloader ((None,) + torch.Size -> TypeError); reported
     container = rng.choice(["np", "np", "tf", "torch", "ds_batched", "ds_batched", "ds_unbatched"])
     proj = gen_proj(rng, shape, ncls)
-    label_kind = rng.choice(["none", "int", "int", "vec"])
+    label_kind = rng.choice(["none", "int", "int", "vec", "bigint"])
+    if container == "torch" and rng.random() < 0.5:
+        label_kind = "bigint"             # every container branch must keep wide integer labels intact
     labels = None
     if label_kind == "int":
         labels = [[float(rng.randint(0, 4))] for _ in range(n)]
+    elif label_kind == "bigint":
+        # record ids / hashes: int64 labels that float32 cannot hold (2^24 + odd numbers)
+        labels = [[float(2 ** 24 + 1 + 2 * rng.randint(0, 40))] for _ in range(n)]
     elif label_kind == "vec":
         labels = [[rng.choice(GRID) for _ in range(2)] for _ in range(n)]
     need_t = proj["wk"] == "target"
@@ -161,6 +166,7 @@ def gen_case(rng, tier, with_classes=False):
     if case["dist"] == "callable":
         pd = proj["sp"] and len(proj["sp"]["M"]) or dim
         case["dw"] = [rng.choice([0.5, 1, 1, 2]) for _ in range(pd)]
+        case["dcall_axis"] = rng.choice([-1, 1])
     if case["dist"] == "cosine":
         make_cosine(rng, case)
     return case
@@ -247,6 +253,10 @@ def make_distance(case):
         return int(k[1:])
     if k == "callable":
         w = tf.constant(case["dw"], dtype=tf.float32)
+        if case.get("dcall_axis") == 1:
+            # written for the documented calling convention — one query (1, F) against one batch of cases (m, F) —
+            # naming the feature axis explicitly
+            return lambda a, b: tf.reduce_sum(tf.abs(a - b) * w, axis=1)
         return lambda a, b: tf.reduce_sum(tf.abs(a - b) * w, axis=-1)
     return k
 
@@ -289,6 +299,10 @@ def make_datasets(case, with_targets=None):
     L = None
     if case["labels"] is not None:
         L = np.array(case["labels"], dtype=np.float32)
+        if case["label_kind"] == "bigint":
+            L = np.array(case["labels"], dtype=np.float64).reshape(-1).astype(np.int64)
+            if case["container"] == "ds_unbatched" and case["columns"] == 1:
+                L = L.reshape(-1, 1)              # same layout restriction as for the small integer labels below
         if case["label_kind"] == "int":
             L = L.reshape(-1).astype(np.int32)
             if case["container"] == "ds_unbatched" and case["columns"] == 1:
@@ -438,7 +452,7 @@ def cslots(case, res):
         ks = [len(res[f][qi]) for f in ("distances", "indices", "examples", "labels") if f in res]
         if len(set(ks)) != 1:
             return None
-        out.append(core.cl([cslot(res, qi, j, case["label_kind"] == "int") for j in range(ks[0])]))
+        out.append(core.cl([cslot(res, qi, j, case["label_kind"] in ("int", "bigint")) for j in range(ks[0])]))
     return core.cl(out)
 
 
